@@ -18,6 +18,10 @@ CLAIMED = {
          "Routing is a finite structure fully visible in syntax and types: 17 containers, 64 arms, 17 file-type pairings. All are enumerated and each arm/pairing is discharged, which settles the statement for every file-type value and every interleaving because no arm reads state other than its own slot.",
          "Trusted: Go semantics of type switch/append/assignment; the paper argument in DESIGN.md C03 that obligations 1-6 imply the statement; matcher accepts exactly two arm statements, anything else is undecided (fail closed).",
          "DESIGN.md 4 C03"),
+ "C14": ("proof", "GF(2)-affine abstract interpretation of updateByte's SSA + constant-table linearity + fold-shape matching",
+         "The CRC step is GF(2)-affine, so one abstract interpretation yields its exact 16x24 matrix; equality with the CRC-16/ARC reference matrix settles all 65536x256 transitions, the composed matrix settles the residue rule for every state, and the fold/one-register shapes settle every byte string and every write partition.",
+         "Trusted: the affine transfer functions (^, & const, shifts by const, zero-extension, linear table load) in checker/c14.go; Go semantics of range over a slice. Sum(in) (big-endian append from hash.Hash) is outside the statement. Any operator outside the domain makes the obligation undecided (fail closed).",
+         "DESIGN.md 4 C14"),
 }
 
 NOT_APPLICABLE = {
